@@ -271,7 +271,9 @@ func headerString(f *Func) string {
 		fmt.Fprintf(buf, " partition %s", quote(f.Partition))
 	}
 	if f.Comdat != nil {
-		if f.Comdat.Name == f.Name() {
+		if !f.IsUnnamed() && f.Comdat.Name == f.GlobalName {
+			// The comdat name may only be left out if it is the name of the
+			// (named) function.
 			buf.WriteString(" comdat")
 		} else {
 			fmt.Fprintf(buf, " %s", f.Comdat)
